@@ -44,7 +44,7 @@ PROPERTIES = {
         ],
     },
     "C03": {
-        "units": ["arena_forest", "ranges", "reader_stacks"], "kani": [], "kani_cex": [],
+        "units": ["arena_forest", "ranges", "reader_stacks"], "kani": ["positions", "ranges", "graph_nodes"], "kani_cex": [],
         "explanation": "PARTIAL: every panic!/unwrap/expect/index/cast/arithmetic site in the functions under contract is unreachable "
                        "under the stated preconditions and every recursion there has a decreases measure. Not covered: the event "
                        "mapping in MarkdownEventsReader::read, section_block's panic arm (reachable), handlers, recursion depth.",
